@@ -363,6 +363,14 @@ def rule_eqn(ctx, rep):
         elif kind == "leaf that falls off the end of the program":
             g.block("F2", ["f1:", "int 1"]); g.edge("F0", "F2")
             g.subroutine("f", "F0", ["F0", "F1", "F2"])
+        elif kind == "accepting leaf two calls below the callee":
+            g.block("F2", ["f1:", "callsub g"]); g.block("F3", ["retsub"]); g.edge("F0", "F2"); g.edge("F2", "F3")
+            g.block("G0", ["g:", "callsub h"]); g.block("G1", ["retsub"]); g.edge("G0", "G1")
+            g.block("H0", ["h:", "txn Fee", "bnz h1"]); g.block("H1", ["retsub"]); g.block("H2", ["h1:", "int 1", "return"])
+            g.edge("H0", "H1"); g.edge("H0", "H2")
+            g.subroutine("f", "F0", ["F0", "F1", "F2", "F3"]); g.subroutine("g", "G0", ["G0", "G1"]); g.subroutine("h", "H0", ["H0", "H1", "H2"])
+            g.call("F2", "g"); g.call("G0", "h")
+            subs = ["f", "g", "h"]
         elif kind == "callsub without return point as exit":
             g.block("F2", ["f1:", "callsub g"]); g.edge("F0", "F2")
             g.block("G0", ["g:", "int 1", "return"])
@@ -381,7 +389,8 @@ def rule_eqn(ctx, rep):
         return g, g.function("main", subs)
 
     for kind, want in (("accepting leaf", {2, 3, 4}), ("failing leaf", {2, 3}), ("accepting leaf in a nested callee", {2, 3, 4}),
-                       ("leaf that falls off the end of the program", {2, 3, 4}), ("callsub without return point as exit", {2, 3, 4})):
+                       ("leaf that falls off the end of the program", {2, 3, 4}), ("callsub without return point as exit", {2, 3, 4}),
+                       ("accepting leaf two calls below the callee", {2, 3, 4})):
         g, fn = mixed(kind)
         me, lo = setup(g, fn, {n: set() for n in g.blocks}, {})
         lo[g.blocks["R"]] = {1, 2, 3}
